@@ -42,3 +42,11 @@ claim('C17', 'CFG must-pass-through on the status test with provenance of the te
       'bookkeeping only advances and (known finding) cannot be skipped; command verb/name/signing shape per front-end; '
       'auto-registration loop and parse_response field copy complete. Does not decide clock values or real concurrency.',
       'NFD management protocol tables (status 200, 0x65/0x66/0x67/0x68); asyncio.Semaphore semantics')
+
+claim('C19', 'CFG path rules (exactly-one-yield between fetches), induction-variable analysis of the retry counter, handler-tuple check, provenance of the yielded value',
+      'Decides the shape of the retry loop (handler around the awaited Interest catches exactly InterestTimeout; attempts == '
+      'retry_times from init/step/test/position of the counter; exhaustion re-raises; a timed-out Interest is re-expressed with the '
+      'caller\'s parameters) and of the generator (between two fetches exactly one yield of element 2 of the fetched tuple; segment '
+      'counter +1 per cycle, 0/1 start on the right branch of the segment-0 test; final-block test after the yield ends fetching; '
+      'unsegmented path yields once). Does not decide loss patterns or producer behaviour.',
+      'express_interest contract; Component.from_segment/to_number semantics')
